@@ -9,7 +9,8 @@ use crate::run::{err_class, gen_kterm, gen_plain_alg, gen_sim, run_search, step_
 use crate::searchcase::{gen_edge_od, gen_vertex_od};
 use crate::world::{gen_world, FrontierCfg, WorldParams};
 use serde_json::json;
-use std::sync::Arc;
+use crate::worldjson::{load_directed, QueryCase};
+use routee_compass_core::algorithm::search::search_instance::SearchInstance;
 
 pub fn gen_alg(rng: &mut Rng, p_ksp: f64) -> Alg {
     if rng.chance(p_ksp) {
@@ -53,6 +54,84 @@ pub fn world_params(tier: Tier) -> WorldParams {
     p
 }
 
+/// run one fully specified query and apply R1..R5 / T1..T3
+pub fn check_query(qc: &QueryCase, si: &SearchInstance, rep: &mut Report) {
+    rep.eval();
+    let net = &qc.world.net;
+    let (alg, od, reverse) = (&qc.alg, qc.od, qc.reverse);
+    let with_dest = matches!(od, Od::Vertex(_, Some(_)) | Od::Edge(_, Some(_)));
+    let (out, _ctx) = run_search(alg, si, od, reverse, &qc.query, step_budget(net.nv(), net.ne(), qc.k()), false);
+    let (orient, dirn) = (qc.orient(), qc.dirn());
+    let replay = || qc.to_json();
+    let res = match out {
+        Err(Caught::Budget(_)) => {
+            rep.count("budget_exceeded_(decided_by_C13)", 1);
+            return;
+        }
+        Err(Caught::Panic(m)) => {
+            rep.count("panics_(decided_by_C12/C13)", 1);
+            rep.seen("panic_messages", crate::hooks::panic_sig(&m));
+            return;
+        }
+        Ok(Err(e)) => {
+            rep.count("search_errors", 1);
+            rep.seen("error_classes", err_class(&e));
+            return;
+        }
+        Ok(Ok(r)) => r,
+    };
+    rep.count("successful_searches", 1);
+    rep.seen("configurations", format!("{}|{orient}|{dirn}", alg.family()));
+    let distinct_od = match od {
+        Od::Vertex(s, Some(d)) => s != d,
+        Od::Edge(s, Some(d)) => s != d,
+        _ => true,
+    };
+    let mut all_ok = true;
+    if with_dest && distinct_od && res.routes.is_empty() {
+        rep.violate(&format!("C01|{}|{orient}|R5-no-route-on-success", alg.family()), "R5 the search succeeded but returned no route".into(), replay);
+        all_ok = false;
+    }
+    for (ri, route) in res.routes.iter().enumerate() {
+        let ids = route_ids(route);
+        let fails = check_route(net, &ids, od, reverse);
+        if let Some(f) = fails.first() {
+            let clause = f.split(' ').next().unwrap_or("R?");
+            rep.violate(&format!("C01|{}|{orient}|{dirn}|{clause}", alg.family()), format!("route {ri} = {ids:?}: {}", fails.join("; ")), replay);
+            all_ok = false;
+        }
+        if ids.len() >= 2 {
+            rep.nontrivial(hash_str(&format!("{:?}|{}|{:?}|{reverse}|{:?}", net.edges.len(), alg.family(), od, ids)));
+        }
+        rep.max("max_route_edges", ids.len() as u64);
+    }
+    let specs = tree_specs(alg, od, reverse, net);
+    if res.trees.len() != specs.len() && !(res.trees.is_empty() && !distinct_od) {
+        rep.count("tree_count_differs_from_expectation", 1);
+    }
+    for (ti, (tree, (root, trev, oe))) in res.trees.iter().zip(specs.iter()).enumerate() {
+        let fails = check_tree(net, tree, *root, *trev, *oe);
+        if let Some(f) = fails.first() {
+            let clause = f.split(' ').next().unwrap_or("T?");
+            rep.violate(
+                &format!("C01|{}|{orient}|{}|tree{ti}|{clause}", alg.family(), if *trev { "reverse" } else { "forward" }),
+                format!("tree {ti} ({} entries, root {root}): {}", tree.len(), fails.join("; ")),
+                replay,
+            );
+            all_ok = false;
+        }
+        if tree.len() >= 5 {
+            rep.nontrivial(hash_str(&format!("t{:?}|{}|{:?}|{trev}|{}", net.edges.len(), alg.family(), od, tree.len())));
+        }
+        rep.max("max_tree_entries", tree.len() as u64);
+        rep.count("trees_checked", 1);
+    }
+    rep.count("routes_checked", res.routes.len() as u64);
+    if all_ok && res.routes.iter().any(|r| r.len() >= 2) {
+        rep.sample(|| json!({"algorithm": alg.name(), "orientation": orient, "direction": dirn, "od": format!("{:?}", od), "motifs": net.motifs, "vertices": net.nv(), "edges": net.ne(), "routes": res.routes.iter().map(|r| route_ids(r)).collect::<Vec<_>>(), "tree_sizes": res.trees.iter().map(|t| t.len()).collect::<Vec<_>>()}));
+    }
+}
+
 fn case(tier: Tier, rng: &mut Rng, rep: &mut Report) {
     let mut p = world_params(tier);
     if tier.thorough && rng.chance(0.03) {
@@ -62,122 +141,55 @@ fn case(tier: Tier, rng: &mut Rng, rep: &mut Report) {
     p.net.metric = rng.chance(0.7);
     p.net.colocated = rng.chance(0.1);
     let mut world = gen_world(rng, &p);
-    let net = world.net.clone();
     // some edge-local restrictions so that frontier-filtered trees are covered too
     let mut query = json!({});
     if rng.chance(0.3) {
-        let classes: Vec<u8> = (0..net.ne()).map(|_| rng.below(4) as u8).collect();
+        let classes: Vec<u8> = (0..world.net.ne()).map(|_| rng.below(4) as u8).collect();
         world.frontier = FrontierCfg::RoadClass { classes, mapping: vec![] };
         let allowed: Vec<u8> = (0..4u8).filter(|_| rng.chance(0.75)).collect();
         query["road_classes"] = json!(allowed);
     }
-    let graph = Arc::new(net.to_graph());
-    let si = match world.si(graph, &query) {
+    let mut qc = QueryCase { world, cut: vec![], query, alg: Alg::Dijkstra, od: Od::Vertex(0, None), reverse: false };
+    let si = match qc.build() {
         Ok(s) => s,
         Err(e) => {
             rep.inconclusive(format!("could not build a search instance: {e}"));
             return;
         }
     };
-    let nq = 8;
-    for _ in 0..nq {
-        rep.eval();
-        let alg = gen_alg(rng, 0.35);
+    for _ in 0..8 {
+        qc.alg = gen_alg(rng, 0.35);
         let edge_oriented = rng.chance(0.35);
-        let with_dest = alg.is_ksp() || rng.chance(0.85);
-        let od = if edge_oriented { gen_edge_od(rng, &net, with_dest) } else { gen_vertex_od(rng, &net, with_dest) };
+        let with_dest = qc.alg.is_ksp() || rng.chance(0.85);
+        qc.od = if edge_oriented { gen_edge_od(rng, &qc.world.net, with_dest) } else { gen_vertex_od(rng, &qc.world.net, with_dest) };
         // the reverse direction is only defined for vertex-oriented plain searches
-        let reverse = !edge_oriented && !alg.is_ksp() && rng.chance(0.45);
-        let k = match &alg {
-            Alg::SingleVia { k, .. } | Alg::Yens { k, .. } => *k,
-            _ => 1,
-        };
-        let (out, _ctx) = run_search(&alg, &si, od, reverse, &query, step_budget(net.nv(), net.ne(), k), false);
-        let orient = if edge_oriented { "edge" } else { "vertex" };
-        let dirn = if reverse { "reverse" } else { "forward" };
-        let replay = || json!({"world": world.to_json(), "query": query, "algorithm": alg.to_json(), "od": format!("{:?}", od), "direction": dirn});
-        let res = match out {
-            Err(Caught::Budget(_)) => {
-                rep.count("budget_exceeded_(decided_by_C13)", 1);
-                continue;
-            }
-            Err(Caught::Panic(m)) => {
-                rep.count("panics_(decided_by_C12/C13)", 1);
-                rep.seen("panic_messages", crate::hooks::panic_sig(&m));
-                continue;
-            }
-            Ok(Err(e)) => {
-                rep.count("search_errors", 1);
-                rep.seen("error_classes", err_class(&e));
-                continue;
-            }
-            Ok(Ok(r)) => r,
-        };
-        rep.count("successful_searches", 1);
-        rep.seen("configurations", format!("{}|{orient}|{dirn}", alg.family()));
-        let distinct_od = match od {
-            Od::Vertex(s, Some(d)) => s != d,
-            Od::Edge(s, Some(d)) => s != d,
-            _ => true,
-        };
-        // routes
-        let mut all_ok = true;
-        if with_dest && distinct_od && res.routes.is_empty() {
-            rep.violate(&format!("C01|{}|{orient}|R5-no-route-on-success", alg.family()), "R5 the search succeeded but returned no route".into(), replay);
-            all_ok = false;
-        }
-        for (ri, route) in res.routes.iter().enumerate() {
-            let ids = route_ids(route);
-            let fails = check_route(&net, &ids, od, reverse);
-            if let Some(f) = fails.first() {
-                let clause = f.split(' ').next().unwrap_or("R?");
-                rep.violate(
-                    &format!("C01|{}|{orient}|{dirn}|{clause}", alg.family()),
-                    format!("route {ri} = {ids:?}: {}", fails.join("; ")),
-                    replay,
-                );
-                all_ok = false;
-            }
-            if ids.len() >= 2 {
-                rep.nontrivial(hash_str(&format!("{:?}|{}|{:?}|{reverse}|{:?}", net.edges.len(), alg.family(), od, ids)));
-            }
-            rep.max("max_route_edges", ids.len() as u64);
-        }
-        // trees
-        let specs = tree_specs(&alg, od, reverse, &net);
-        if res.trees.len() != specs.len() && !(res.trees.is_empty() && !distinct_od) {
-            rep.count("tree_count_differs_from_expectation", 1);
-        }
-        for (ti, (tree, (root, trev, oe))) in res.trees.iter().zip(specs.iter()).enumerate() {
-            let fails = check_tree(&net, tree, *root, *trev, *oe);
-            if let Some(f) = fails.first() {
-                let clause = f.split(' ').next().unwrap_or("T?");
-                rep.violate(
-                    &format!("C01|{}|{orient}|{}|tree{ti}|{clause}", alg.family(), if *trev { "reverse" } else { "forward" }),
-                    format!("tree {ti} ({} entries, root {root}): {}", tree.len(), fails.join("; ")),
-                    replay,
-                );
-                all_ok = false;
-            }
-            if tree.len() >= 5 {
-                rep.nontrivial(hash_str(&format!("t{:?}|{}|{:?}|{trev}|{}", net.edges.len(), alg.family(), od, tree.len())));
-            }
-            rep.max("max_tree_entries", tree.len() as u64);
-            rep.count("trees_checked", 1);
-        }
-        rep.count("routes_checked", res.routes.len() as u64);
-        if all_ok && res.routes.iter().any(|r| r.len() >= 2) {
-            rep.sample(|| json!({"algorithm": alg.name(), "orientation": orient, "direction": dirn, "od": format!("{:?}", od), "motifs": net.motifs, "vertices": net.nv(), "edges": net.ne(), "routes": res.routes.iter().map(|r| route_ids(r)).collect::<Vec<_>>(), "tree_sizes": res.trees.iter().map(|t| t.len()).collect::<Vec<_>>()}));
-        }
+        qc.reverse = !edge_oriented && !qc.alg.is_ksp() && rng.chance(0.45);
+        check_query(&qc, &si, rep);
     }
-    for m in &net.motifs {
+    for m in &qc.world.net.motifs {
         rep.seen("motifs", m.clone());
+    }
+}
+
+/// directed cases (committed inputs of known findings and regressions) are run first, every time
+pub fn run_directed(property: &str, rep: &mut Report, f: impl Fn(&QueryCase, &SearchInstance, &mut Report)) {
+    for (sig, qc) in load_directed(&crate::root(), property) {
+        match qc.build() {
+            Ok(si) => {
+                f(&qc, &si, rep);
+                rep.count("directed_cases", 1);
+            }
+            Err(e) => rep.inconclusive(format!("directed case for {sig} could not be built: {e}")),
+        }
     }
 }
 
 pub fn run(tier: Tier, seed: u64) -> MonOut {
     let n = tier.n(1_500, 60_000);
-    let rep = par_cases(seed, n, |_i, rng, rep| case(tier, rng, rep));
+    let mut rep = par_cases(seed, n, |_i, rng, rep| case(tier, rng, rep));
+    let mut d = Report::new();
+    run_directed("C01", &mut d, check_query);
+    rep.merge(d);
     MonOut {
         report: rep,
         rule: "generated networks (2..26 vertices quick, up to 60 and occasionally 150..400 thorough; motifs random/grid/ring/chain/hub/u-turn/parallel/self-loop/blocks/bridges, metric or arbitrary lengths, occasionally co-located) x 8 queries each: Dijkstra, A* (weight factor none/0/0.5/1/1.5/5), single-via and Yen (k 1..4, every similarity and termination setting) x vertex or edge orientation x forward/reverse (reverse only for vertex-oriented plain searches) x with/without destination, distance or speed traversal, turn delays, per-edge surcharges, road-class restrictions. every returned route gets R1..R5, every returned tree T1..T3 against the generator's edge list. non-trivial = route of >= 2 edges or tree of >= 5 entries; distinct by (network size, algorithm family, od, direction, route)".into(),
